@@ -62,6 +62,22 @@ theorem paramsOf_nodup (ps : List SParam) (g : Nat) : ((paramsOf ps g).map (·.n
   rw [this]
   exact firstOcc_nodup _
 
+/-- the table has one entry per id from 1 to the largest id any record carries … -/
+theorem assemble_length (gs : List SGroup) (ps : List SParam) : (Spec.assemble gs ps).length = maxId gs ps := by
+  simp [Spec.assemble]
+
+/-- … and an id that NO record carries is presented as a blank, unlocked, parameter-less placeholder -/
+theorem assemble_placeholder (gs : List SGroup) (ps : List SParam) (i : Nat) (hi : i < maxId gs ps)
+    (hg : ∀ r ∈ gs, r.gid ≠ i + 1) (hp : ∀ q ∈ ps, q.gid ≠ i + 1) :
+    (Spec.assemble gs ps)[i]? = some {} := by
+  unfold Spec.assemble
+  rw [List.getElem?_map, List.getElem?_range hi]
+  have h1 : gs.filter (fun r => r.gid == i + 1) = [] := by
+    rw [List.filter_eq_nil_iff]; intro r hr; simpa using hg r hr
+  have h2 : ps.filter (fun q => q.gid == i + 1) = [] := by
+    rw [List.filter_eq_nil_iff]; intro q hq; simpa using hp q hq
+  simp only [Option.map_some, headerOf, paramsOf, h1, h2, List.getLast?_nil, List.map_nil, firstOcc, List.filterMap_nil]
+
 /-! ### look-ups by name in the loaded table -/
 
 theorem findIdx?_mapIdx_indep {α β} (l : List α) : ∀ (f : Nat → α → β) (p : β → Bool) (q : α → Bool), (∀ i x, p (f i x) = q x) →
